@@ -348,9 +348,46 @@ func c02AddHeightRecovery(o *an.Obl, p *an.Prog) {
 				if id, ok := ast.Unparen(ix.Index).(*ast.Ident); ok {
 					// a key variable set in the arms of a message type switch
 					var forms []string
-					for _, ks := range f.Assigns(func(fn *an.Func, e ast.Expr) bool { return c02ObjOf(fn, e) == c02ObjOf(f, id) }, false) {
-						if ka, ok := ks.Node.(*ast.AssignStmt); ok && len(ka.Rhs) == 1 {
+					keyObj := c02ObjOf(f, id)
+					for _, ks := range f.Assigns(func(fn *an.Func, e ast.Expr) bool { return c02ObjOf(fn, e) == keyObj }, false) {
+						ka, ok := ks.Node.(*ast.AssignStmt)
+						if !ok {
+							continue
+						}
+						if len(ka.Rhs) == 1 {
 							forms = append(forms, reSub(`\$v:\*lnwire\.[A-Za-z]+`, "$$msg", f.Canon(ka.Rhs[0])))
+							continue
+						}
+						if len(ka.Lhs) != len(ka.Rhs) {
+							continue
+						}
+						// a parallel assignment `key, found = e, true|false` (the
+						// results of a helper spliced at its call site): the key
+						// that comes with found=false never reaches a write that
+						// is only reachable under found
+						for i, l := range ka.Lhs {
+							if c02ObjOf(f, l) != keyObj {
+								continue
+							}
+							dead := false
+							for j, r := range ka.Rhs {
+								flag := c02ObjOf(f, ka.Lhs[j])
+								if j == i || flag == nil || f.Canon(r) != "false" {
+									continue
+								}
+								if b, isB := flag.Type().Underlying().(*types.Basic); !isB || b.Kind() != types.Bool {
+									continue
+								}
+								isFlag := func(fn *an.Func, e ast.Expr) bool { return c02ObjOf(fn, e) == flag }
+								for _, ws := range f.Assigns(func(fn *an.Func, e ast.Expr) bool { return e.Pos() == ix.Pos() && e.End() == ix.End() }, false) {
+									if g, n := f.Guarded(ws, an.Truth(isFlag, true, "found")); g && n > 0 {
+										dead = true
+									}
+								}
+							}
+							if !dead {
+								forms = append(forms, reSub(`\$v:\*lnwire\.[A-Za-z]+`, "$$msg", f.Canon(ka.Rhs[i])))
+							}
 						}
 					}
 					key = strings.Join(uniq(forms), "|")
